@@ -371,6 +371,14 @@ V("c18-neutral-mkdir-db-path", N, "C18", None,
 V("c15-neutral-inline-flag", N, "C15", None,
   ("variables", '            sql = re.sub(rf"\\${name}(?!\\w)", lambda _, v=value: v, sql, flags=re.IGNORECASE)', '            sql = re.sub(rf"(?i)\\${name}(?!\\w)", lambda _, v=value: v, sql)'))
 
+V("c16-neutral-strip-script", N, "C16", None,
+  ("conn", 'for e in sqlglot.parse(sql_text, read="snowflake")', 'for e in sqlglot.parse(sql_text.strip(), read="snowflake")'))
+V("c16-script-semicolons-split-by-hand", A, "C16", "C16.a",
+  ("conn", 'for e in sqlglot.parse(sql_text, read="snowflake")', 'for e in sqlglot.parse(sql_text.replace(";;", ";"), read="snowflake")'))
+
+V("c20-neutral-getattr-module-var", N, "C20", None,
+  ("__init__", "            fn = module.__dict__.get(fn_name)", "            fn = getattr(module, fn_name, None)"))
+
 # ---------------------------------------------------------------- C01
 V("c01-float-stays-float", A, "C01", "C01.a", ("transforms", '        expression.args["this"] = exp.DataType.Type.DOUBLE\n', '        expression.args["this"] = exp.DataType.Type.FLOAT\n'))
 V("c01-drop-float-stage", A, "C01", "C01.a", ("cursor", "            .transform(transforms.float_to_double)\n", ""))
